@@ -18,7 +18,7 @@ FAMILY = {
                sets={"/v": [5, 100, 101], "/arr/0/1": [9], "/e/p": [-3], "/e/q": [None, 65535], "/renamed/0": [True], "/renamed/1/q": [7, None]}),
     "S4": dict(init=[{}], leaves=["/only"], internal=[""], sets={"/only": [1, 255, 999]}),
 }
-BAD = ["/nope", "/a/b", "/b/2", "/i/x/y", "x", "/", "/b/01"]
+BAD = ["/nope", "/a/b", "/b/2", "/i/x/y", "x", "/", "/b/01", "/settings", "/settings/a", "/settings/x", "/settings/only", "/settings/v"]
 
 
 def cases_for(rng, tier, rs_bin):
@@ -28,7 +28,9 @@ def cases_for(rng, tier, rs_bin):
         for init in F["init"]:
             for client in ("sync", "async"):
                 reqs = [dict(api="get", path=p) for p in F["leaves"]] + [dict(api="list", path=p) for p in F["internal"]] + \
-                       [dict(api="get", path=p) for p in F["internal"][:2]] + [dict(api="list", path=F["leaves"][0])]
+                       [dict(api="get", path=p) for p in F["internal"][:2]] + [dict(api="list", path=F["leaves"][0])] + \
+                       [dict(api="get", path="/settings" + F["leaves"][0]), dict(api="list", path="/settings"),
+                        dict(api="set", path="/settings" + list(F["sets"])[0], value=F["sets"][list(F["sets"])[0]][0])]   # no node is called "settings"
                 cases.append(dict(kind="e2e", client=client, settings=sname, init=init, rs_bin=rs_bin, requests=reqs))
                 reqs = []
                 for leaf, vs in F["sets"].items():
